@@ -235,6 +235,23 @@ pub fn run(ctx: &mut Ctx) {
         }
     }
     crate::spaces::render_probes(ctx, &["missing", "missing_some"]);
+    // thresholds of every number kind and magnitude (the count needed is a number like any other: beyond the key
+    // count, beyond 2^31 / 2^32 / 2^53 / 2^63, u64::MAX, negative, fractional, -0, a numeric string)
+    {
+        let mut ths: Vec<Value> = al::ints_extreme();
+        ths.extend(al::magnitude_ladder().into_iter().step_by(4));
+        ths.extend(["0", "-0.0", "1.0", "1.5", "2.0", "-1", "0.5", "\"1\"", "\"2\"", "null", "true", "[1]", "3", "4", "2147483648", "4294967296", "9223372036854775807", "9223372036854775808", "18446744073709551615", "1e19", "1e300"].iter().map(|t| al::parse(t)));
+        for th in al::dedup(ths) {
+            if !ctx.mine() {
+                continue;
+            }
+            for (keys, d) in [(json!(["x"]), json!({})), (json!(["x", "y.z", 0]), json!({"y": {"z": false}})), (json!(["a", "b"]), json!({"a": 1, "b": 2})), (json!(["a", "b", "c"]), json!({"a": 1})), (json!([]), json!({}))] {
+                ctx.edge();
+                ctx.check("threshold-kinds", &json!({"missing_some": [th, keys]}), &d);
+                ctx.check("threshold-kinds:V", &json!({"missing_some": [{"var": "t"}, keys]}), &json!({"t": th, "a": 1}));
+            }
+        }
+    }
     // key lists whose entries are themselves lists (a key list inside the key list, to any of three levels), objects
     // or booleans, at every position, for every threshold: `missing` flattens only a FIRST operand that is an
     // array (its documented quirk); everything else that is not a string, an integer or null is not a key
